@@ -3,6 +3,7 @@ package hengine
 import (
 	"context"
 	"fmt"
+	"os"
 	"testing"
 	"time"
 
@@ -14,6 +15,7 @@ import (
 	rm "github.com/openfga/openfga/internal/verifsim/refmodel"
 	"github.com/openfga/openfga/internal/verifsim/simrt"
 	"github.com/openfga/openfga/internal/verifsim/simstore"
+	"github.com/openfga/openfga/pkg/logger"
 	"github.com/openfga/openfga/pkg/server"
 	"github.com/openfga/openfga/pkg/server/commands"
 	"github.com/openfga/openfga/pkg/tuple"
@@ -141,6 +143,9 @@ func (e *Env) ServerOpts() []server.OpenFGAServiceV1Option {
 func (e *Env) NewServer(extra ...server.OpenFGAServiceV1Option) (*server.Server, error) {
 	// vary the real planner's RNG seed (taken from the virtual clock) across runs
 	time.Sleep(time.Duration(e.Run.H("clock-offset")%1000000) + 1)
+	if os.Getenv("VSIM_LOG") != "" {
+		extra = append(extra, server.WithLogger(logger.MustNewLogger("text", "debug", "ISO8601")))
+	}
 	s, err := server.NewServerWithOpts(append(e.ServerOpts(), extra...)...)
 	if err != nil {
 		return nil, err
